@@ -70,16 +70,16 @@ func (h H) whoMayCompact(rule string) {
 	// iteration compares this follower's matchIndex-1 with the bound (either
 	// outcome) or finds matchIndex == 0 (bound 0) — reachable or not: the
 	// replication of an unreachable follower still holds its view
-	if hd := fi.RangeHeader("Raft.ldr.repls", 0); hd != nil && len(h.P.CallsTo(ost, cl)) > 0 {
+	if hd := sliceRangeHeader(fi, "(*leader).logReaders(Raft.ldr)"); hd != nil && len(h.P.CallsTo(ost, cl)) > 0 {
 		r := fi.LoopBodyMustCross(hd, func(a core.Atom) bool {
 			if strings.Contains(a.L, ".status.matchIndex - 1)") || strings.Contains(a.R, ".status.matchIndex - 1)") {
 				return true
 			}
-			return a.Implies(core.MkAtom("each(Raft.ldr.repls).val.status.matchIndex", "==", "0"))
+			return strings.HasSuffix(a.L, ".status.matchIndex") && a.Op == "==" && a.R == "0"
 		})
-		h.C.Check(rule+" every-follower-bounds", "(*Raft).onSnapshotTaken range ldr.repls", r.OK, h.pos(hd.Instrs[0]), "a replication can be passed over when the bound of the immediate compaction is computed (e.g. an unreachable follower): its view still covers entries that are removed at once: "+r.Witness)
+		h.C.Check(rule+" every-follower-bounds", "(*Raft).onSnapshotTaken range ldr.logReaders()", r.OK, h.pos(hd.Instrs[0]), "a replication can be passed over when the bound of the immediate compaction is computed (e.g. an unreachable follower): its view still covers entries that are removed at once: "+r.Witness)
 	} else {
-		h.C.Check(rule+" every-follower-bounds", "(*Raft).onSnapshotTaken range ldr.repls", false, h.fpos(ost), "no loop over the leader's replications bounds the immediate compaction")
+		h.C.Check(rule+" every-follower-bounds", "(*Raft).onSnapshotTaken range ldr.logReaders()", false, h.fpos(ost), "the bound of the immediate compaction is not computed over leader.logReaders(): the replication of a node dropped from the configuration, whose goroutine has not ended yet, still reads the log through its view (F28)")
 	}
 	// checkLogCompact: every replication has released the range
 	clc := h.fn("raft:(*leader).checkLogCompact")
@@ -87,15 +87,15 @@ func (h H) whoMayCompact(rule string) {
 	for k, c := range h.P.CallsTo(clc, cl) {
 		site := h.site(clc, cl, k)
 		h.C.Check(rule+" checkLogCompact-arg", site, h.argStr(c, 1) == "leader.removeLTE", h.pos(c), "checkLogCompact must compact up to leader.removeLTE")
-		hd := cfi.RangeHeader("leader.repls", 0)
+		hd := sliceRangeHeader(cfi, "(*leader).logReaders(leader)")
 		ok := hd != nil
 		if ok {
 			r := cfi.LoopBodyMustCross(hd, func(a core.Atom) bool {
-				return a.Implies(core.MkAtom("each(leader.repls).val.status.removeLTE", ">=", "leader.removeLTE"))
+				return strings.HasPrefix(a.L, "(*leader).logReaders(leader)[") && strings.HasSuffix(a.L, "].status.removeLTE") && a.Op == ">=" && a.R == "leader.removeLTE"
 			})
 			ok = r.OK && hd.Dominates(c.Block())
 		}
-		h.C.Check(rule+" all-followers-released", site, ok, h.pos(c), "the log is compacted although a replication may not have switched to the shorter view yet")
+		h.C.Check(rule+" all-followers-released", site, ok, h.pos(c), "the log is compacted although a replication (leader.logReaders(): the running ones and the stopped ones whose goroutine has not ended) may not have switched to the shorter view yet")
 	}
 	// CanLTE / RemoveLTE: see C13
 }
@@ -1063,4 +1063,15 @@ func (h H) snapshotOpenPinned(rule string) {
 			fmt.Sprintf("a snapshot file is removed although it may be in use or within the retained ones (use count of that index tested ==0: %v, position beyond retain: %v, usedMu held: %v)", unused, beyond, locked))
 	})
 	h.C.Floor(rule+" (removals in applyRetain)", nRm, 2)
+}
+
+// sliceRangeHeader: the header block of a `for … range <slice>` loop (an index
+// loop in SSA form: its condition compares the counter with len(slice)).
+func sliceRangeHeader(fi *core.FuncInfo, slice string) *ssa.BasicBlock {
+	for _, b := range fi.Fn.Blocks {
+		if a, ok := fi.EdgeAtom(core.Edge{From: b, Succ: 0}); ok && a.Op == "<" && a.R == "len("+slice+")" {
+			return b
+		}
+	}
+	return nil
 }
